@@ -1,4 +1,4 @@
-(* The C12 monitor accepts every trace the model produces on in-range inputs. *)
+(* The C12 monitor accepts every trace the model produces on well-formed call lists. *)
 From SC Require Import Lib.Prelude Lib.Int Model.Math Proofs.Math Run.C12.
 From Coq Require Import ZifyBool.
 
@@ -8,41 +8,48 @@ Proof. destruct o as [[v|]|]; cbn; auto using Z.eqb_refl. Qed.
 Lemma r128_iff z : r128 z = true <-> MIN128 <= z <= MAX128.
 Proof. unfold r128. apply in_i128_iff. Qed.
 
-Lemma spec_matches_model c :
-  in_range_call c = true ->
-  match spec_call c with Some s => s = run_call c | None => True end.
+Lemma spec_ok_model c : in_range_call c = true -> spec_ok c (run_call c) = true.
 Proof.
   destruct c as [rd x y d|rd x y d|rd x y d|rd x y d|a b|a b|n d|n|x e|x e];
-    cbn [in_range_call spec_call run_call]; intros H.
+    cbn [in_range_call spec_ok run_call]; intros H.
   - apply andb_prop in H as [H Hd]; apply andb_prop in H as [Hx Hy].
-    rewrite r128_iff in *. rewrite mul_div128_ok by auto. reflexivity.
+    rewrite r128_iff in *. rewrite mul_div128_ok by auto. apply eqb_out_refl.
   - apply andb_prop in H as [H Hd]; apply andb_prop in H as [Hx Hy].
-    rewrite r128_iff in *. rewrite checked_mul_div128_ok by auto. reflexivity.
+    rewrite r128_iff in *. rewrite checked_mul_div128_ok by auto. apply eqb_out_refl.
   - apply andb_prop in H as [H Hd]; apply andb_prop in H as [Hx Hy].
-    destruct (in_i256 (x * y)) eqn:Hp; [|exact I].
-    rewrite in_i256_iff in *. rewrite mul_div256_ok by auto. reflexivity.
+    destruct (d =? 0) eqn:Ed.
+    + unfold mul_div256. rewrite Ed. reflexivity.
+    + destruct (in_i256 (x * y)) eqn:Hp; [|reflexivity].
+      rewrite in_i256_iff in *. rewrite mul_div256_ok by auto. apply eqb_out_refl.
   - apply andb_prop in H as [H Hd]; apply andb_prop in H as [Hx Hy].
-    destruct (in_i256 (x * y)) eqn:Hp; [|exact I].
-    rewrite in_i256_iff in *. rewrite checked_mul_div256_ok by auto. unfold spec_checked256.
-    destruct (d =? 0); [reflexivity|]. destruct (fit256 (exact rd (x * y) d)); [reflexivity|exact I].
-  - apply andb_prop in H as [Ha Hb]. rewrite r128_iff in *. rewrite wad_checked_mul_ok by auto. reflexivity.
-  - apply andb_prop in H as [Ha Hb]. rewrite r128_iff in *. rewrite wad_checked_div_ok by auto. reflexivity.
+    destruct (d =? 0) eqn:Ed.
+    + unfold checked_mul_div256. rewrite Ed. reflexivity.
+    + destruct (in_i256 (x * y)) eqn:Hp; [|reflexivity].
+      rewrite in_i256_iff in *. rewrite checked_mul_div256_ok by auto. unfold spec_checked256.
+      rewrite Ed. destruct (fit256 (exact rd (x * y) d)); cbn [lift256]; [apply eqb_out_refl|reflexivity].
+  - apply andb_prop in H as [Ha Hb]. rewrite r128_iff in *. rewrite wad_checked_mul_ok by auto. apply eqb_out_refl.
+  - apply andb_prop in H as [Ha Hb]. rewrite r128_iff in *. rewrite wad_checked_div_ok by auto. apply eqb_out_refl.
   - apply andb_prop in H as [Ha Hb]. rewrite r128_iff in *. rewrite wad_from_ratio_ok by auto.
-    destruct (d =? 0); [reflexivity|]. destruct (fit128 (trunc_div (n * WAD) d)); reflexivity.
-  - exact I.
-  - exact I.
-  - exact I.
+    destruct (d =? 0); [reflexivity|]. destruct (fit128 (trunc_div (n * WAD) d)); apply eqb_out_refl.
+  - unfold wad_from_integer, checked_mul. destruct (fit128 (n * WAD)); apply eqb_out_refl.
+  - apply andb_prop in H as [Hx He]. rewrite r128_iff in Hx.
+    assert (He' : 0 <= e < 2 ^ 32) by (unfold in_u32, MAXU32 in He; lia).
+    pose proof (wad_checked_pow_no_trap x e Hx He') as Hn.
+    destruct (wad_checked_pow x e) as [[v|]|]; cbn; auto.
+  - reflexivity.
 Qed.
 
-Lemma pow_pair_model prev c :
+Lemma pow_pair_model (prevc : option call) c :
   in_range_call c = true ->
-  (forall c', prev = Some c' -> in_range_call (fst c') = true /\ c' = model_obs (fst c')) ->
-  pow_pair_ok prev (model_obs c) = true.
+  (match c with
+   | WadPow x e => match prevc with Some (WadCPow x' e') => (x =? x') && (e =? e') | _ => false end
+   | _ => true
+   end) = true ->
+  pow_pair_ok (option_map model_obs prevc) (model_obs c) = true.
 Proof.
-  intros Hc Hprev. destruct c; cbn [model_obs pow_pair_ok]; auto.
-  destruct prev as [[c' o']|]; auto. destruct c'; auto.
-  destruct (Hprev _ eq_refl) as [Hr Hm]. cbn [fst] in *. inversion Hm as [Ho']. clear Hm.
-  destruct ((x =? x0) && (e =? e0)) eqn:E; auto.
+  intros Hc Hp. destruct c; cbn [model_obs pow_pair_ok]; auto.
+  destruct prevc as [c'|]; [|discriminate]. destruct c'; try discriminate.
+  cbn [option_map model_obs]. rewrite Hp. cbn [andb].
   assert (x0 = x /\ e0 = e) as [-> ->] by lia. cbn [run_call].
   cbn [in_range_call] in Hc. apply andb_prop in Hc as [Hx He]. rewrite r128_iff in Hx.
   assert (He' : 0 <= e < 2 ^ 32) by (unfold in_u32, MAXU32 in He; lia).
@@ -50,21 +57,17 @@ Proof.
   unfold wad_pow. destruct (wad_checked_pow x e) as [[v|]|]; cbn [flatten bind]; auto using Z.eqb_refl.
 Qed.
 
-Theorem monitor_accepts_model : forall (cs : list call) prev,
-  forallb in_range_call cs = true ->
-  (forall c', prev = Some c' -> in_range_call (fst c') = true /\ c' = model_obs (fst c')) ->
-  forall i, mon_from prev (map model_obs cs) i = 0%N.
+Theorem monitor_accepts_model : forall (cs : list call) (prevc : option call),
+  forallb in_range_call cs = true -> paired prevc cs = true ->
+  forall i, mon_from (option_map model_obs prevc) (map model_obs cs) i = 0%N.
 Proof.
-  induction cs as [|c cs IH]; intros prev Hr Hprev i; [reflexivity|].
+  induction cs as [|c cs IH]; intros prevc Hr Hp i; [reflexivity|].
   cbn [forallb] in Hr. apply andb_prop in Hr as [Hc Hcs].
+  cbn [paired] in Hp. apply andb_prop in Hp as [Hp1 Hp2].
   cbn [map mon_from]. unfold mon_step.
-  pose proof (spec_matches_model c Hc) as Hs. cbn [model_obs fst snd] in *.
-  assert (H1 : match spec_call c with Some s => eqb_out s (run_call c) | None => true end = true).
-  { destruct (spec_call c); [subst; apply eqb_out_refl|reflexivity]. }
-  change (fst (c, run_call c)) with c. change (snd (c, run_call c)) with (run_call c).
-  rewrite H1. change (c, run_call c) with (model_obs c).
-  rewrite (pow_pair_model prev c Hc Hprev). cbn [andb].
-  apply IH; auto. intros c' Hc'. inversion Hc'; subst. split; auto.
+  change (fst (model_obs c)) with c. change (snd (model_obs c)) with (run_call c).
+  rewrite Hc, (spec_ok_model c Hc), (pow_pair_model prevc c Hc Hp1). cbn [andb].
+  apply (IH (Some c)); auto.
 Qed.
 
 Lemma diff_accepts_model (cs : list call) : forall i,
@@ -76,17 +79,43 @@ Proof.
 Qed.
 
 Theorem check_accepts_model (cs : list call) :
-  forallb in_range_call cs = true -> check (map model_obs cs) = (0%N, 0%N, 0%N).
+  wf_calls cs = true -> check (map model_obs cs) = (0%N, 0%N, 0%N).
 Proof.
-  intros Hr. unfold check. f_equal. f_equal.
+  intros Hw. unfold wf_calls in Hw. apply andb_prop in Hw as [Hr Hp].
+  unfold check. f_equal. f_equal.
   - apply diff_accepts_model.
-  - apply monitor_accepts_model; auto. intros c' H; discriminate.
+  - apply (monitor_accepts_model cs None); auto.
 Qed.
 
-(* the monitor is not trivially true: a wrong answer is rejected *)
+(* ---- the monitor is not trivially true: wrong answers and malformed traces are rejected ---- *)
 Example monitor_rejects_wrong_floor :
   check [(MulDiv128 Floor (-7) 1 2, Ok (Some (-3)))] = (1%N, 1%N, 0%N).
 Proof. vm_compute. reflexivity. Qed.
 Example monitor_rejects_missed_overflow :
   snd (fst (check [(CMulDiv128 Truncate MIN128 1 (-1), Ok (Some MIN128))])) = 1%N.
+Proof. vm_compute. reflexivity. Qed.
+(* reviewer's traces (.cache/review/C12): reversed / separated pow pair, consistent-but-trapping
+   checked_pow, value returned for d = 0 or for an unfitting I256 quotient, out-of-range input *)
+Example monitor_rejects_reversed_pow_pair :
+  snd (fst (check [(WadPow (2 * WAD) 2, Fail); (WadCPow (2 * WAD) 2, Ok (Some (4 * WAD)))])) = 1%N.
+Proof. vm_compute. reflexivity. Qed.
+Example monitor_rejects_separated_pow_pair :
+  snd (fst (check [(WadCPow (2 * WAD) 2, Ok (Some (4 * WAD))); (WadFromInteger 1, Ok (Some WAD));
+                   (WadPow (2 * WAD) 2, Fail)])) = 3%N.
+Proof. vm_compute. reflexivity. Qed.
+Example monitor_rejects_trapping_checked_pow :
+  snd (fst (check [(WadCPow (2 * WAD) 2, Fail)])) = 1%N.
+Proof. vm_compute. reflexivity. Qed.
+Example monitor_rejects_value_for_zero_divisor_256 :
+  snd (fst (check [(CMulDiv256 Floor MAX256 MAX256 0, Ok (Some 5))])) = 1%N /\
+  snd (fst (check [(MulDiv256 Floor MAX256 2 0, Ok (Some 5))])) = 1%N.
+Proof. vm_compute. split; reflexivity. Qed.
+Example monitor_rejects_value_for_unfitting_quotient_256 :
+  snd (fst (check [(CMulDiv256 Truncate MIN256 1 (-1), Ok (Some 0))])) = 1%N.
+Proof. vm_compute. reflexivity. Qed.
+Example monitor_rejects_wrong_from_integer :
+  snd (fst (check [(WadFromInteger 3, Ok (Some 3))])) = 1%N.
+Proof. vm_compute. reflexivity. Qed.
+Example monitor_rejects_out_of_range_input :
+  snd (fst (check [(WadCMul (MAX128 + 1) 1, Ok None)])) = 1%N.
 Proof. vm_compute. reflexivity. Qed.
